@@ -632,6 +632,8 @@ func (r *Resolver) ResolveGraphQLDeferResponse(ctx *Context, response *GraphQLDe
 					resolvable: resolvable,
 					writer:     writer,
 					arena:      resolveArena.Arena,
+
+					authorization: authorization,
 				}
 				if err := r.resolveDeferTree(dc, ctx, liveTree, &outstanding); err != nil {
 					return nil, err
@@ -655,6 +657,9 @@ type deferContext struct {
 	// arena backs every defer group's loader. It is shared across groups; every
 	// allocation from it is serialised by db's lock (see resolveDeferSingle).
 	arena arena.Arena
+	// authorization holds the seeded pre-fetch decisions; the loaders of the defer
+	// groups read them in their prepare phase (under db's lock) to skip denied fetches.
+	authorization *FieldAuthorization
 }
 
 // resolveDeferSingle fetches and renders a single deferred fragment, announcing
@@ -675,7 +680,7 @@ func (r *Resolver) resolveDeferSingle(dc *deferContext, ctx *Context, group *Def
 	// the arena only in its prepare and merge phases, both of which hold
 	// dc.db.Lock(), and the off-lock network phase allocates nothing from it. The
 	// lock therefore serialises every arena allocation across all groups.
-	groupLoader := NewLoader(r.options, r.allowedErrorExtensionFields, r.allowedErrorFields, r.subgraphRequestSingleFlight, dc.arena, dc.db, nil)
+	groupLoader := NewLoader(r.options, r.allowedErrorExtensionFields, r.allowedErrorFields, r.subgraphRequestSingleFlight, dc.arena, dc.db, dc.authorization)
 	groupLoader.Init(ctx, dc.info) // fresh taintedObjs; errors=nil
 
 	if fetchErr := groupLoader.ResolveFetchNode(group.Fetches); fetchErr != nil {
